@@ -7,6 +7,10 @@ export CARGO_NET_OFFLINE=true CARGO_TARGET_DIR="$W/target"
 git -C /repo worktree remove --force "$W" 2>/dev/null; rm -rf "$W"
 git -C /repo worktree add -q --detach "$W" HEAD || exit 1
 cd "$W"
+if ! git apply --check "$D/patch.diff" 2>/dev/null; then
+  # written against the parent of the fourth repair (b18ff6e) and rewriting the lines it touches: verify it there
+  cd /; git -C /repo worktree remove --force "$W"; git -C /repo worktree add -q --detach "$W" 8a84cd9 || exit 1; cd "$W"
+fi
 git apply "$D/patch.diff" || { echo "{\"id\":\"$ID/$X\",\"error\":\"patch does not apply\"}" > "$OUT"; cd /; git -C /repo worktree remove --force "$W"; exit 0; }
 suite=$(cargo test --offline --workspace --no-fail-fast 2>&1 | grep -E "^test result" | head -1)
 git apply "$D/demo.diff" || { echo "{\"id\":\"$ID/$X\",\"error\":\"demo does not apply\"}" > "$OUT"; cd /; git -C /repo worktree remove --force "$W"; exit 0; }
